@@ -131,13 +131,14 @@ def bomGet (key : List (Option Nat)) : Option Cps :=
   | some name => if name.isEmpty then none else some name
   | none => none
 
-/-- the three lookups (`:386-390`): four bytes, three bytes, two bytes -/
-def bomDetect (b1 b2 b3 b4 : Nat) : Option Cps :=
-  match bomGet [some b1, some b2, some b3, some b4] with
+/-- the three lookups (`:386-390`): four bytes, three bytes, two bytes. A position the document does not have is
+`None` (`:379`, since "detectXMLEncoding no longer raises ValueError for a document shorter than four characters") -/
+def bomDetect (b1 b2 b3 b4 : Option Nat) : Option Cps :=
+  match bomGet [b1, b2, b3, b4] with
   | some n => some n
-  | none => match bomGet [some b1, some b2, some b3, none] with
+  | none => match bomGet [b1, b2, b3, none] with
     | some n => some n
-    | none => bomGet [some b1, some b2, none, none]
+    | none => bomGet [b1, b2, none, none]
 
 /-- all (length of the part before the group, length of the group) of matches of the declaration pattern at
 offset 0, in the order in which a backtracking matcher finds them -/
@@ -157,7 +158,8 @@ as latin-1 (same code points), so `binary` plays no role any more; it is kept so
 def detectXMLStream (fp : Stream) (includeDefault : Bool) : XmlRes :=
   let oldFP := fp.pos                                         -- tell()
   let head := fp.content.take C20.bomRead                     -- seek(0); read(4); bytes -> latin-1
-  match head with
+  -- `(byte1, byte2, byte3, byte4) = (tuple(map(ord, head)) + (None,) * 4)[:4]` (`:379`)
+  match (head.map some ++ List.replicate 4 none).take 4 with
     | [b1, b2, b3, b4] =>
       match bomDetect b1 b2 b3 b4 with
       | some name => ⟨.ok (some name), { fp with pos := oldFP }⟩           -- seek(oldFP); return
@@ -168,7 +170,7 @@ def detectXMLStream (fp : Stream) (includeDefault : Bool) : XmlRes :=
         | none =>
           if includeDefault then ⟨.ok (some C20.xmlDefault), { fp with pos := oldFP }⟩
           else ⟨.ok none, { fp with pos := oldFP }⟩
-    | _ => ⟨.error .valueError, { fp with pos := oldFP }⟩       -- unpacking fails: seek(oldFP); raise
+    | _ => ⟨.error .valueError, fp⟩       -- the unpacking of a tuple that has not four items (never: `sniff_total`)
 
 /-- `detectXMLEncoding(text)` for a `str` or `bytes` document: `io.StringIO(text)` (`:354-358`) -/
 def detectXML (text : Cps) (includeDefault : Bool) : Except Err (Option Cps) :=
@@ -268,11 +270,13 @@ def typeOf (response : Option Resp) (text : Cps) : Nat :=
   | some r => textTypeByMediaType (getHTTPInfo r).1
   | none => textTypeOfText text
 
-/-- `xml_encoding` (`:611-622`): two independent `if`s, the second one overwrites -/
+/-- `xml_encoding` (`:606-622`): two independent `if`s, the second one overwrites; both only when the text has the
+four characters of the longest BOM (`sniffable`, `:608`) -/
 def xmlOf (tt : Nat) (text : Cps) : Except Err (Option Cps) :=
-  match (if tt == C20.XML_APPLICATION_TYPE then sniffCaught text true else .ok none) with
+  let sniffable := decide (4 ≤ text.length)
+  match (if tt == C20.XML_APPLICATION_TYPE && sniffable then sniffCaught text true else .ok none) with
   | .error e => .error e
-  | .ok x1 => if tt == C20.HTML_TEXT_TYPE then sniffCaught text false else .ok x1
+  | .ok x1 => if tt == C20.HTML_TEXT_TYPE && sniffable then sniffCaught text false else .ok x1
 
 /-- `(meta_media_type, meta_encoding)` (`:625-626`) -/
 def metaOf (tt : Nat) (metaRaw : MetaRaw) : Except Err (Option Cps × Option Cps) :=
